@@ -1,6 +1,6 @@
 """C18 — CalTRACK hourly: each hour belongs to its own month; bin features sum to T.
 
-Exhaustive enumeration (no sampling) of five finite spaces, oracle = refmodels.segments
+Exhaustive enumeration (no sampling) of six finite spaces, oracle = refmodels.segments
 (plain Python, zoneinfo + Fractions), evaluated on the input alone:
 
  weights    segment_time_series over every hour of 2023 (non-leap) and 2024 (leap) in four zones
@@ -13,6 +13,8 @@ Exhaustive enumeration (no sampling) of five finite spaces, oracle = refmodels.s
  bins       compute_temperature_bin_features for all 64 subsets of the candidate endpoints
             x temperature lattice U endpoint neighbourhoods U NaN x three series arrangements
  how        compute_time_features over both years and over every 168-hour window (one per day)
+ wls        fit_caltrack_hourly_model_segment on intercept-only designs with every mix of {1, 3, 8} full-weight,
+            {0, 1, 3, 8} half-weight and {0, 1, 3, 8} zero-weight rows: fitted level = weighted mean
  occupancy  fit and prediction design matrices over 13 weeks (every hour-of-week x every
             temperature class) x occupancy lookups x bin tables x segmentation types
 """
@@ -47,6 +49,9 @@ ASSUMPTIONS = [
     "for the requested type is reported (unknown_segment) rather than guessed",
     "weights are compared exactly (1, 1/2, 0); with drop_zero_weight_segments=True the same per-hour pattern is required of the "
     "columns that are returned (an all-zero column that is kept is not a violation)",
+    "'when fitting': the weight column of the fit design matrices must equal the statement's weights (design_weight) and the "
+    "public segment fitter must honour it: on intercept-only designs the fitted level of an hour-of-week must be the weighted "
+    "mean of its rows (rows of weight 0 have no influence, weight 1/2 counts half), relative tolerance 1e-9",
     "prediction routing is decided from the public prediction output only: marker A answers 1000*j + hour_of_week for segment j "
     "with all-zero bin coefficients; marker B answers +/-V_j where V_j identifies segment j's bin-endpoint tables and the sign the "
     "occupancy lookup bit; every expected value is an exactly representable float, comparison is exact; fitted segment types are "
@@ -62,7 +67,7 @@ ASSUMPTIONS = [
     "the final row of the fit design matrix only closes the last period (eemeter convention: its temperature and hour_of_week "
     "are blanked) and is excluded from the design-matrix clauses",
     "the 'all 168 values occur' sentence is a coverage requirement on the enumeration (the reference takes all 168 values in "
-    "every zone and in every week without a clock change); a week containing a spring-forward legitimately misses one value",
+    "every zone and in every week without a clock change); a 168-hour window containing a clock change legitimately misses one value",
 ]
 
 
@@ -685,8 +690,46 @@ def case_occupancy(case):
             "stats": {"design_rows": n_seg * nrows}}
 
 
+# ------------------------------------------------------------------ part: the segment fitter honours the weight column
+WLS_LEVELS = {0: (2, 8, 1000), 5: (3, 11, -500), 167: (-4, 6, 77)}  # hour-of-week -> meter value of the (1, 1/2, 0)-weight rows
+
+
+def case_wls(case):
+    from opendsm.eemeter.models.hourly_caltrack.model import fit_caltrack_hourly_model_segment
+
+    n1, nh, n0 = case["n_full"], case["n_half"], case["n_zero"]
+    rows = []
+    for how, (a, b, c) in WLS_LEVELS.items():
+        rows += [(how, float(a), 1.0)] * n1 + [(how, float(b), 0.5)] * nh + [(how, float(c), 0.0)] * n0
+    if case["order"] == "reversed":
+        rows = rows[::-1]
+    idx = pd.date_range("2024-01-01", periods=len(rows), freq="h", tz="UTC")
+    df = pd.DataFrame(rows, columns=["hour_of_week", "meter_value", "weight"], index=idx)
+    df["hour_of_week"] = df["hour_of_week"].astype("category")
+    key = {"part": "wls"}
+    viol = []
+    try:
+        params = fit_caltrack_hourly_model_segment("own", df).model_params
+    except Exception as exc:  # noqa
+        return {"behaviour": "raise", "violations": [{"clause": "segment_fit_raised", "key": dict(key, exc=type(exc).__name__),
+                                                      "detail": f"rows 1:{n1} 1/2:{nh} 0:{n0}: {type(exc).__name__}: {str(exc)[:200]}"}]}
+    beh = {}
+    for how, (a, b, c) in WLS_LEVELS.items():
+        exp = (Fraction(n1) * a + Fraction(nh, 2) * b) / (Fraction(n1) + Fraction(nh, 2))
+        got = (params or {}).get(f"C(hour_of_week)[{how}]")
+        beh[str(how)] = str(exp)
+        if got is None or not abs(Fraction(float(got)) - exp) <= abs(exp) * Fraction(1, 10 ** 9):
+            plain = Fraction(n1 * a + nh * b + n0 * c, n1 + nh + n0)
+            viol.append({"clause": "fit_weighting", "key": key,
+                         "detail": f"hour-of-week {how}: {n1} rows of weight 1 (value {a}), {nh} of weight 1/2 (value {b}), {n0} of weight 0 "
+                                   f"(value {c}) [{case['order']}]: fitted level {got!r}, weighted mean {float(exp)!r} "
+                                   f"(unweighted mean would be {float(plain)!r})"})
+    return {"behaviour": beh, "violations": viol, "stats": {"wls_levels": len(WLS_LEVELS)}}
+
+
 # ------------------------------------------------------------------ driver
-PARTS = {"weights": case_weights, "routing": case_routing, "bins": case_bins, "how": case_how, "occupancy": case_occupancy}
+PARTS = {"weights": case_weights, "routing": case_routing, "bins": case_bins, "how": case_how, "occupancy": case_occupancy,
+         "wls": case_wls}
 
 
 def run_case(case):
@@ -695,7 +738,10 @@ def run_case(case):
 
 def cases(tier):
     """Simplest-first.  quick = thorough minus the fine (1/10 degree) temperature lattice."""
-    out = {"weights": [], "how": [], "bins": [], "occupancy": [], "routing": []}
+    out = {"weights": [], "how": [], "wls": [], "bins": [], "occupancy": [], "routing": []}
+    for n1, nh, n0 in itertools.product((1, 3, 8), (0, 1, 3, 8), (0, 1, 3, 8)):
+        for order in ("grouped", "reversed"):
+            out["wls"].append({"part": "wls", "n_full": n1, "n_half": nh, "n_zero": n0, "order": order})
     wins = all_windows()
     for zone in ZONES:
         for st in SEGMENT_TYPES:
@@ -735,6 +781,8 @@ def cases(tier):
 RULES = {
     "weights": "one case = (zone, segmentation type, window, drop flag); behaviour = per-hour weight pattern histogram",
     "how": "one case = (zone, whole span | every 168-hour window); behaviour = hour-of-week values exercised and distinct values per span",
+    "wls": "one case = (numbers of rows of weight 1, 1/2, 0 per hour-of-week, row order) given to the public segment fitter; "
+           "behaviour = the exact weighted means",
     "bins": "one case = (endpoint subset, series arrangement, lattice); behaviour = rows by temperature class and number of exact sums",
     "occupancy": "one case = (zone, fit|predict design matrix, segmentation type, occupancy lookup, lookup dtype, bin tables); "
                  "behaviour = segments and rows per active side",
@@ -747,7 +795,7 @@ def run(tier, seed):
     cs = cases(tier)
     exps = []
     with poolmod.Pool() as pool:
-        for part in ("weights", "how", "bins", "occupancy", "routing"):
+        for part in ("weights", "how", "wls", "bins", "occupancy", "routing"):
             exps.append(explore.explore(pool, part, MOD, "run_case", cs[part], seed=seed))
     cov = explore.merge_coverage(exps, rule="; ".join(f"[{k}] {v}" for k, v in RULES.items()) + "; all cases are non-trivial")
     for e in exps:
